@@ -292,7 +292,7 @@ def run(plan, stats):
     start = plan.get('start', 1)
     lay = plan['layout']
     phys_e, lstat = _c10.lay_out(lines, {'layout_seed': lay['layout_seed'], 'p_insert': lay['p_insert'],
-                                         'p_break': lay['p_break']})
+                                         'p_break': lay['p_break'], 'no_cr_trail': True})
     phys = [t for t, _e in phys_e]
     intact = '\n'.join(phys) + '\n'
     model0, err0, other0 = parse_text(intact, start)
